@@ -111,6 +111,14 @@ M = [
  ('R2A-N1-daffine3-product-order', 'src/f64/daffine3.rs', r's/        iter.fold(Self::IDENTITY, |a, &b| a \* b)/        iter.fold(Self::IDENTITY, |a, \&b| b * a)/', ['C05', 'C06']),
  ('R2A-N8-dvec3-distance-expanded', 'src/f64/dvec3.rs', r's/        (self - rhs).length()$/        math::sqrt(self.length_squared() + rhs.length_squared() - 2.0 * self.dot(rhs))/', ['C02']),
  ('R2A-S1-dvec2-distance-squared-expanded', 'src/f64/dvec2.rs', r'485s/(self - rhs).length_squared()/self.length_squared() + rhs.length_squared() - 2.0 * self.dot(rhs)/', ['C02']),
+
+ # round 3 (reviewers rt3a / rt3b / rt3c)
+ ('R3C-EV1-arc-assert-wrong-operand', 'src/f32/sse2/quat.rs', r'320s/to.is_normalized()/from.is_normalized()/', ['C20']),
+ ('R3C-EV2-project-onto-normalized-asserts-self', '@sh', r"for f in $(grep -rl 'glam_assert!(rhs.is_normalized());' src); do sed -i 's/glam_assert!(rhs.is_normalized());/glam_assert!(self.is_normalized());/' $f; done", ['C20']),
+ ('R3C-EV3-look-to-up-assert-dropped', 'src/f32/sse2/mat4.rs', r'830d', ['C20']),
+ ('R3C-EV4-clamp-length-max-strict-everywhere', '@sh', r"for f in $(grep -rl 'glam_assert!(0.0 <= max);' src); do sed -i 's/glam_assert!(0.0 <= max);/glam_assert!(0.0 < max);/' $f; done", ['C20']),
+ ('R3C-EV5-slerp-end-assert-dropped-everywhere', '@sh', r"for f in $(grep -rl 'glam_assert!(end.is_normalized());' src); do sed -i '/glam_assert!(end.is_normalized());/d' $f; done", ['C20']),
+ ('R3C-EV6-scale-any-to-all-everywhere', '@sh', r"for f in $(grep -rlE 'glam_assert!\(scale.cmpne\((D?Vec[23])::ZERO\).any\(\)\);' src); do sed -i -E 's/glam_assert!\(scale.cmpne\((D?Vec[23])::ZERO\).any\(\)\);/glam_assert!(scale.cmpne(\1::ZERO).all());/' $f; done", ['C20']),
 ]
 
 
@@ -149,7 +157,10 @@ def main():
         if shard and idx % shard[1] != shard[0]:
             continue
         sh('cd %s && git checkout -q -- .' % SCR)
-        subprocess.run(['sed', '-i', expr, os.path.join(SCR, rel)])
+        if rel == '@sh':
+            subprocess.run(expr, shell=True, cwd=SCR)       # a multi-file (template-wide) edit given as a shell command run in the scratch copy
+        else:
+            subprocess.run(['sed', '-i', expr, os.path.join(SCR, rel)])
         if not sh('cd %s && git diff --stat' % SCR).strip():
             print('%-40s STALE (sed changed nothing)' % mid)
             res.append((mid, 'stale', []))
